@@ -257,10 +257,16 @@ class LockCheck(Check):
             return f'no progress: step budget exhausted ({r["steps"]} quanta) with unfinished threads under a fair scheduler'
         if r['end'].startswith('crash') and self.crash_relevant():
             return 'implementation crashed (signal / sanitizer) in ' + r['id']
+        if r['end'] == 'hang' and self.hang_relevant():
+            return ('the implementation did not return: it ran for 20 s of wall-clock time without reaching another atomic '
+                    'operation (non-terminating local loop) in ' + r['id'])
         return None
 
     def crash_relevant(self):
         return False
+
+    def hang_relevant(self):
+        return self.stuck_relevant or self.crash_relevant()
 
     def scenarios(self, n_per_comp, seed, prefix=''):
         out = {}
@@ -653,6 +659,9 @@ class ThreadCheck(LockCheck):
 
 
 class C04(ThreadCheck):
+    def hang_relevant(self):
+        return True   # ForwardGlobalEpoch / guard creation must return
+
     lean_module = 'CppUtil.Props.C04'
     theorems = ['CppUtil.Props.c04_collected_is_published', 'CppUtil.Props.c15_free_slot_all_expired', 'CppUtil.Props.c15_unexpired_unique', 'CppUtil.Props.c15_exit_order']
     categories = ['pin']
@@ -683,6 +692,9 @@ class C15(ThreadCheck):
 
 
 class C16(ThreadCheck):
+    def hang_relevant(self):
+        return True   # ForwardGlobalEpoch / guard creation must return
+
     lean_module = 'CppUtil.Props.C16'
     theorems = ['CppUtil.Props.c16_initial', 'CppUtil.Props.c16_min_le_cur', 'CppUtil.Props.c16_contains_cur_next', 'CppUtil.Props.c16_quiescent', 'CppUtil.Props.c16_head_is_new']
     categories = ['epoch']
@@ -704,6 +716,9 @@ class C17(ThreadCheck):
 
 
 class C20(ThreadCheck):
+    def hang_relevant(self):
+        return True   # ForwardGlobalEpoch / guard creation must return
+
     lean_module = 'CppUtil.Props.C20'
     theorems = ['CppUtil.Props.c20_published_exact', 'CppUtil.Props.c20_published_unique', 'CppUtil.Props.c20_min_is_smallest',
                 'CppUtil.Props.c20_good_consts', 'CppUtil.Props.c20_history_total', 'CppUtil.Props.c20_forward_after_history', 'CppUtil.Props.c20_prune_exact']
